@@ -288,21 +288,6 @@ Definition book_of (c : c09_case) : book :=
 Definition last_obs (c : c09_case) : option (dstep * obs) :=
   match rev (combine (c_script c) (c_obs c)) with x :: _ => Some x | [] => None end.
 
-(* the run ended drained: last step is a list, nothing queued, every allocated revision committed *)
-Definition final_list (c : c09_case) : option (N * list (key * value * N)) :=
-  match last_obs c with
-  | Some (DList, o) =>
-      match o_d o with
-      | OListed h l =>
-          let b := book_of c in
-          if (o_queue o =? 0) && (o_committed o =? bk_dealt b) && negb (bk_parked b)
-             && match bk_unres b with [] => true | _ => false end
-          then Some (h, l) else None
-      | _ => None
-      end
-  | _ => None
-  end.
-
 Definition ev_of_obs (x : evobs) : wevent :=
   let '(v, k, val, r, p) := x in
   {| e_rev := r; e_prev := p; e_verb := v; e_key := k; e_val := val; e_valid := true; e_unc := false |}.
@@ -313,12 +298,54 @@ Fixpoint lookup_kv (k : key) (l : list (key * value * N)) : option (value * N) :
   | (k', v, r) :: l' => if k' =? k then Some (v, r) else lookup_kv k l'
   end.
 
-(* (5) convergence: replaying the delivered events newer than an early list over that list gives the final list *)
-Definition converged_from (evs_newest_first : list wevent) (fin : list (key * value * N)) (o : obs) : bool :=
-  match o_d o with
-  | OListed h0 l0 =>
-      forallb (fun k => kvo_eqb (replay_key k (events_after h0 evs_newest_first) (lookup_kv k l0)) (lookup_kv k fin)) keys4
-  | _ => true
+(* (5) convergence: at every List taken in a drained state (nothing queued, nothing held, every allocated revision
+   committed), for every earlier List: replaying the delivered events newer than the early list (up to the later one's
+   revision) over the early list gives the later list.
+   (6) the converged store is usable: right after a drained List, an Update of a listed key whose expected revision is
+   the listed one succeeds (the index record agrees with the newest version). *)
+Fixpoint remove_kv (k : key) (l : list (key * value * N)) : list (key * value * N) :=
+  match l with
+  | [] => []
+  | (k', v, r) :: l' => if k' =? k then remove_kv k l' else (k', v, r) :: remove_kv k l'
+  end.
+
+Definition events_between (h0 h1 : N) (evs_newest_first : list wevent) : list wevent :=
+  events_after h0 (filter (fun ev => e_rev ev <=? h1) evs_newest_first).
+
+Definition lists_agree (evs : list wevent) (early : N * list (key * value * N)) (h1 : N) (l1 : list (key * value * N)) : bool :=
+  let '(h0, l0) := early in
+  forallb (fun k => kvo_eqb (replay_key k (events_between h0 h1 evs) (lookup_kv k l0)) (lookup_kv k l1)) keys4.
+
+Record cstate := { cs_book : book; cs_lists : list (N * list (key * value * N));
+                   cs_probe : option (list (key * value * N)); cs_conv : bool; cs_probe_ok : bool }.
+
+Definition drained (b : book) (o : obs) : bool :=
+  (o_queue o =? 0) && (o_committed o =? bk_dealt b) && negb (bk_parked b) && match bk_unres b with [] => true | _ => false end.
+
+Definition conv_step (evs : list wevent) (a : cstate) (x : dstep * obs) : cstate :=
+  let '(d, o) := x in
+  let b' := book_step (cs_book a) x in
+  match d, o_d o with
+  | DList, OListed h l =>
+      if drained b' o
+      then {| cs_book := b'; cs_lists := (h, l) :: cs_lists a; cs_probe := Some l;
+              cs_conv := cs_conv a && forallb (fun early => lists_agree evs early h l) (cs_lists a);
+              cs_probe_ok := cs_probe_ok a |}
+      else {| cs_book := b'; cs_lists := (h, l) :: cs_lists a; cs_probe := None; cs_conv := cs_conv a; cs_probe_ok := cs_probe_ok a |}
+  | DWrite (OUpdate k _ prev) [] false false, OResp r _ =>
+      match cs_probe a with
+      | Some l =>
+          match lookup_kv k l with
+          | Some (_, r0) =>
+              if r0 =? prev
+              then {| cs_book := b'; cs_lists := cs_lists a; cs_probe := Some (remove_kv k l); cs_conv := cs_conv a;
+                      cs_probe_ok := cs_probe_ok a && match r with ROk _ _ => true | _ => false end |}
+              else {| cs_book := b'; cs_lists := cs_lists a; cs_probe := None; cs_conv := cs_conv a; cs_probe_ok := cs_probe_ok a |}
+          | None => {| cs_book := b'; cs_lists := cs_lists a; cs_probe := None; cs_conv := cs_conv a; cs_probe_ok := cs_probe_ok a |}
+          end
+      | None => {| cs_book := b'; cs_lists := cs_lists a; cs_probe := None; cs_conv := cs_conv a; cs_probe_ok := cs_probe_ok a |}
+      end
+  | _, _ => {| cs_book := b'; cs_lists := cs_lists a; cs_probe := None; cs_conv := cs_conv a; cs_probe_ok := cs_probe_ok a |}
   end.
 
 (* (4) acknowledged writes are durable: exactly one delivered event carries the acknowledged revision, with the
@@ -358,18 +385,20 @@ Definition sig_F2 (c : c09_case) : bool :=   (* an unknown-outcome write of an e
              | _, _ => false
              end) (combine (c_script c) (c_obs c)).
 
+Definition conv_of (c : c09_case) : cstate :=
+  fold_left (conv_step (rev (map ev_of_obs (c_events c)))) (combine (c_script c) (c_obs c))
+            {| cs_book := {| bk_dealt := r0; bk_unres := []; bk_parked := false; bk_ok := true |};
+               cs_lists := []; cs_probe := None; cs_conv := true; cs_probe_ok := true |}.
+
 Definition c09_oracle (c : c09_case) : option N :=
   if existsb step_outside (c_script c) then None else
   if negb (forallb class_ok (c_obs c)) then Some 0 else
   if negb (bk_ok (book_of c)) then Some 0 else
   if negb (forallb (ack_event_ok (c_events c)) (combine (c_script c) (c_obs c))
            && increasing (map (fun e : evobs => let '(_, _, _, r, _) := e in r) (c_events c))) then Some 0 else
-  match final_list c with
-  | None => None
-  | Some (_, fin) =>
-      let evs := rev (map ev_of_obs (c_events c)) in
-      if forallb (converged_from evs fin) (c_obs c) then None
-      else if sig_F1 c then Some 1
-      else if sig_F2 c then Some 2
-      else Some 0
-  end.
+  let cs := conv_of c in
+  if negb (cs_probe_ok cs) then Some 0 else
+  if cs_conv cs then None
+  else if sig_F1 c then Some 1
+  else if sig_F2 c then Some 2
+  else Some 0.
